@@ -14,8 +14,9 @@ REGISTRATION = {
             "Tokenize for the context field after the done chunk), the OpenAI ChatWriter/CompleteWriter and "
             "api.Client.stream, for every chunk list: stream concatenation = non-stream reply, re-splitting does not "
             "change the reply, streamed and non-streamed requests fail together with the same error, OpenAI content = "
-            "native content, exactly one final message or one error, api.Client delivers what is on the wire. Model = code "
-            "is checked on 38 request shapes x every split of a set of outputs x endings x fault points through the real "
+            "native content, exactly one final message or one error, api.Client delivers what is on the wire (with the "
+            "scanner's line limit: F17e). Model = code "
+            "is checked on 44 request shapes x every split of a set of outputs x endings x fault points through the real "
             "gin router with a scripted runner, and the property itself is evaluated on the real responses; the "
             "DoneReason strings are regenerated from the real method on every run and re-checked by decide.",
     "design_ref": "DESIGN.md §5 C17",
@@ -23,7 +24,7 @@ REGISTRATION = {
             "every concatenation of consecutive chunks) are supplied per case (tools equivalence is proved under the "
             "decidable guard PrefixStable; false without it: F17a/b); Tokenize/Detokenize are the harness's (s -> [len s], "
             "fixed text) and a fault makes a method fail for the whole request; JSON encoding/decoding of the bodies and "
-            "gin's writer are exercised by the tie, not modelled; chunks are valid UTF-8 (the runner guarantees it); request "
+            "gin's writer are exercised by the tie, not modelled (the wire length of each line is an input of the client model);  chunks are valid UTF-8 (the runner guarantees it); request "
             "binding/validation, scheduling beyond 'returns the runner or an error', options (handed to the runner "
             "untouched; varied by the generator) and client disconnects are out of scope. Theorems about the repaired "
             "variants (proposed_fixes/C17-*.patch) concern code that is not in /repo unless VARIANT says so.",
@@ -146,7 +147,9 @@ def run(ctx):
         level="proof",
         rule="14 fixed + seeded random model outputs (plain text, JSON, tool calls, nested/array calls, unicode, empty "
              "pieces) x all 2^(n-1) splits up to the tier's n (sampled beyond) x endings (done chunk, done chunk with "
-             "content, runner error after k chunks, nil return without done) x 38 request shapes (generate/chat, "
+             "content, runner error after k chunks, nil return without done); long outputs (60 KiB .. 600 KiB as one chunk and as "
+             "totals, huge tool-call argument); conversations of 1-6 messages over system/user/assistant/assistant+tool_calls/"
+             "tool; tool-call arguments with numbers beyond float64; x 44 request shapes (generate/chat, "
              "stream true/false/absent, raw, format, tools, /v1/chat/completions and /v1/completions with stream and "
              "include_usage, api.Client) x fault points outside Completion (load, Detokenize, Tokenize) with request "
              "shapes that reach them (generate with context, chat with earlier turns), options/system/stop varied; "
